@@ -13,6 +13,13 @@ if rnd == "6":
              "delegate, a helper or conversion utility, a default value, a rarely used public method or parameter combination, the interaction of two "
              "features (e.g. limits + a special previous value + a wrapper), or state kept in an object between calls. The breakage must still be a "
              "clear violation of the property as stated, observable through the public API.\n\n")
+if rnd == "7":
+    HARD += ("Additional steer for this round: prefer one of these kinds of slip -- (a) a boundary comparison or tolerance (<= vs <, a threshold compared "
+             "on the wrong side, an absolute value dropped, a unit mix-up degrees/radians or metres/millimetres, f32 vs f64 precision), (b) an off-by-one or "
+             "wrong bound in a loop, index or slice, a wrong element of an array or tuple, (c) an error-handling path (Ok where Err is due or the reverse, a panic, "
+             "an unwrap on a value that can be absent, a swallowed error), (d) the order of two operations that do not commute. The breakage must be a clear "
+             "violation of the property as stated, observable through the public API, and must NOT be one of: swapping base/tool in a constructor, making "
+             "update_range use stale limits, capping the number of IK answers, lowering a cancellation flag, reading J6 from the resolved previous vector.\n\n")
 print(f"""You are given a scratch git worktree of the Rust crate `rs-opw-kinematics` (analytical inverse/forward kinematics for 6-axis OPW robots, with constraints, tool/base frames, Jacobian, collisions, path planning) at {wt}. Work ONLY inside {wt}. Do not read or touch /repo or /verif. The sandbox has no network: always pass --offline to cargo (or set CARGO_NET_OFFLINE=true). Use this command for the existing test-suite (66 tests, all must pass; first build takes a few minutes):
 
     cd {wt} && cargo test --lib --offline --no-default-features --features "allow_filesystem collisions stroke_planning" 2>&1 | tail -15
